@@ -145,7 +145,9 @@ def dvObs (st : St) (s : Seg) (tag : Nat) (c : Cmd) : St × String :=
 def thesObs (s : Seg) (c : Cmd) : String :=
   let pairs := s.synonyms (strBytes (c.arg 2)) (unhx (c.arg 3)) (parseBitmap (c.getD "ex" "nil"))
   let strs := sortStrs (pairs.map (fun p => s!"{hx p.1}:{p.2}"))
-  if strs.isEmpty then "-" else ",".intercalate strs
+  match c.get? "take" with
+  | some k => s!"n={min (k.toNat?.getD 0) strs.eraseDups.length}"   -- an iteration abandoned after k pairs
+  | none => if strs.isEmpty then "-" else ",".intercalate strs
 
 /-- Three-way check: where the segment was built directly from a batch, the
     model's answer is also compared with `Spec` (the right-hand sides of the
@@ -453,25 +455,5 @@ def commandObs (st : St) (c : Cmd) : St × Verdict :=
         else (st, .exact "maps=0 fds=0")
       | _ => (st, .none)
   | _ => vecObs st c
-
-/-- For segments that are zero-survivor merges (known finding D3) only the
-    relaxed oracle applies: Count 0, no panic, no error, every query empty,
-    Fields either empty or the union. -/
-def d3Relaxed (st : St) (c : Cmd) (got : String) : Option Bool :=
-  if c.op == "q" ∧ st.d3.contains (c.arg 1) then
-    some (match c.arg 0 with
-      | "count" => got == "0"
-      | "fields" => got == "-" || got.startsWith "_id,"
-      | "dvfields" => got == "-"
-      | "post" => got.startsWith "cnt=0 rep=none live=- " ∧ !(((got.splitOn "hits=").getD 1 "").toList.any Char.isDigit)
-      | "dict" => got.startsWith "ents=- " ∧ !(((kvOf got "contains").getD "").toList.contains '1') ∧ kvOf got "card" == some "0"
-      | "stored" => got == "-"
-      | "docid" => got == "nil"
-      | "docnums" => got == "-"
-      | "dv" => got == "-"
-      | "thesterms" => got.startsWith "terms=- "
-      | "thes" => got == "-"
-      | _ => true)
-  else none
 
 end Zap.Driver
